@@ -694,7 +694,13 @@ pub fn boxes_for(id: &str, quick: bool) -> Vec<Box_> {
                     v.push(mk("2 tasks T<=8 J{0,1,2,4,9} C<=3", ana, 2,
                         (1..=8u64).flat_map(|t| [0u64, 1, 2, 4, 9].into_iter().map(move |j| ArrSpec::Sporadic { t, j })).collect(),
                         3, &[], false));
-                    v.push(mk("3 tasks curves+sporadic C<=2", ana, 3, with_curves(sporadic_grid(4, 1)), 2, &[], false));
+                    if matches!(ana, Ana::FpP | Ana::FpNp) {
+                        v.push(mk("3 tasks curves+sporadic C<=2", ana, 3, with_curves(sporadic_grid(4, 1)), 2, &[], false));
+                    } else {
+                        // (with all layouts the three-task box has 1.3e5 task sets and 2.3e9 states)
+                        v.push(mk("2 tasks curves+sporadic C<=3 all layouts", ana, 2, with_curves(sporadic_grid(4, 1)), 3, &[], false));
+                        v.push(mk("3 tasks curves C<=2 all layouts", ana, 3, curve_menu(), 2, &[], false));
+                    }
                 }
             }
         }
